@@ -51,7 +51,8 @@ func parsePreloadMap(s *schema.Schema, preloads map[string][]interface{}) map[st
 		value := strings.TrimPrefix(strings.TrimPrefix(name, preloadFields[0]), ".")
 		if preloadFields[0] == clause.Associations {
 			for _, relation := range s.Relationships.Relations {
-				if relation.Schema == s {
+				// relations of named embedded structs are registered below, under their embedded path
+				if relation.Schema == s && len(relation.Field.EmbeddedBindNames) <= 1 {
 					setPreloadMap(relation.Name, value, args)
 				}
 			}
